@@ -40,10 +40,42 @@ nested member too) on either side leaves the other side as it was.  The copy con
 from evolved atoms (concatenate, join, ensemble-from-list) copy the dictionary one level: there the table records
 VShared, the model predicts the shared store, and the value content must still be equal; the in-place edit of such
 a value is outside what the property enumerates (see DESIGN) and is not held against these routes.
+
+CHAINS of copy routes (round 4): the source of a case may itself be a copy -- `prefix`, one or two routes applied to the
+generated object before the route under test: every (class, route 1, route 2) of the single routes (a cross-class constructor
+applied to an unpickled / deep-copied object, a pickle of a constructed object, ...), class-preserving copies of the operands
+in front of concatenate / join / ensemble-from-list, and random chains of three.  Oracle: (a) the result against the object
+the chain STARTED from, on every field all classes on the way have; (b) a copy stands in for its source: the chain without
+its class-preserving steps (pickle, deepcopy, same-class constructor) gives a result equal in every observed field, and a
+route that works on the source works on the copy (`...:raises:<Exc>:after:<chain>`); (c) the result shares no container with
+ANY earlier object of the chain (no value object with those a deep copy separates it from); (d) a mutation of the result
+leaves every earlier object as it was and vice versa.  Tie H: the heap of such a case holds the original, the intermediate
+and the result; Coq replays the last step on the intermediate and must reproduce the whole heap and what every one of them
+shows before and after the mutation.  Model/AliasChain.v + Proofs/AliasChain.v: `copy_chain`, for all heaps and chains.
+
+Attribute value TYPES (round 4): values beyond numbers / strings / arrays / lists / dicts (EXOTIC: Counter, defaultdict,
+OrderedDict, namedtuple, nested tuple, set, frozenset, bytes, bytearray, None, enum member, numpy scalar, complex, an attrs
+instance, an Atom / a Bond OF THE SAME OBJECT, lists / dicts of those, two atoms naming each other) are stored on the object,
+an atom or a bond and compared after every route by exact type and content at every depth (`tkey`: a Counter is not a dict, a
+namedtuple is not a tuple; insertion order; default_factory).  Deep routes must also re-point a stored Atom / Bond INTO the
+copy (same index) and share no such object; on one-level routes the stored object is the source's (VShared ruling: predicted,
+not reported).  A route that raises on such a source but runs on its twin with ordinary values is a violation
+(`...:raises:<Exc>:exotic-values`).  In the model such values are content-free tokens (the model cannot look into them).
 """
-import os, sys, json, struct, pickle, copy as _copy, itertools, math
+import os, sys, json, struct, pickle, copy as _copy, itertools, math, collections
+import attrs
 import vlib
 from vlib import cq_list, cq_bool
+
+# user-side classes of attribute values (module level: picklable as c06.<name>)
+PointNT = collections.namedtuple("PointNT", "x y")
+
+
+@attrs.define(eq=False)
+class UserTag:
+    """an attrs instance a caller stores as an attribute value (mutable, with a mutable member)"""
+    label: str = "t"
+    data: list = attrs.field(factory=list)
 
 HEADER = ("From Coq Require Import List ZArith.\nImport ListNotations.\n"
           "From Molli Require Import Model.Alias Gen.CopyRoutes.\nOpen Scope nat_scope.\n")
@@ -113,10 +145,18 @@ def is_mut(v):
     return isinstance(v, (np.ndarray, list, dict, set, bytearray))
 
 
+def is_ref(v):
+    """A value that is an object of its own with identity (an Atom / Bond of some molecule, an attrs instance): shown as a
+    content-free token; what it holds and whom it belongs to is judged by the typed observation (`tkey`), not by the model."""
+    return attrs.has(type(v))
+
+
 def vkey(v):
     """What an attrib dictionary shows of a value WITHOUT looking into it: a leaf, or a content-free token for a
     mutable value (its content lives in the store of the dictionary)."""
-    return ("ref", type(v).__name__) if is_mut(v) else leaf_key(v)
+    if is_mut(v) or is_ref(v) or (isinstance(v, (tuple, frozenset)) and any(is_mut(x) or is_ref(x) or isinstance(x, tuple) for x in v)):
+        return ("ref", type(v).__name__)
+    return leaf_key(v)
 
 
 def flat_val(v, out, members):
@@ -134,7 +174,8 @@ def flat_val(v, out, members):
             flat_val(x, out, members)
     elif isinstance(v, dict):
         members.append(v)
-        out.append(("dict", len(v)))
+        # the TYPE of the container is content (a Counter / defaultdict / OrderedDict that comes back as a plain dict differs)
+        out.append((type(v).__name__, len(v)) + ((repr(v.default_factory),) if isinstance(v, collections.defaultdict) else ()))
         for k, x in v.items():
             out.append(leaf_key(k))
             flat_val(x, out, members)
@@ -142,7 +183,7 @@ def flat_val(v, out, members):
         members.append(v)
         out.append((type(v).__name__, repr(sorted(v, key=repr) if isinstance(v, set) else bytes(v))))
     else:
-        out.append(leaf_key(v))
+        out.append(vkey(v))
 
 
 def dict_store(d):
@@ -211,7 +252,179 @@ def edit_value_in_place(d, rng):
     if isinstance(x, dict):
         x["edited"] = 0.0
         return "dict"
+    if isinstance(x, set):
+        x.add(-1.0)
+        return "set"
+    if isinstance(x, bytearray):
+        x.append(7)
+        return "bytearray"
     return None
+
+
+# ------------------------------------------------------------------ attribute values by TYPE and content (oracle side)
+def _qual(t):
+    return f"{t.__module__}.{t.__qualname__}"
+
+
+def tkey(v, own=None, seen=()):
+    """Type-and-content description of an attribute value, at every depth: the exact class of every container and leaf
+    (a Counter is not a dict, a namedtuple is not a tuple, numpy.float64 is not float), insertion order of mappings,
+    default_factory of a defaultdict, fields of attrs instances; an Atom / Bond is described by its fields and by WHERE it
+    lives -- own(x) says ("atom", i) / ("bond", j) of the observed object or ("foreign",); own=None leaves that out."""
+    import numpy as np
+    import enum
+    from molli.chem import Atom, Bond
+    t = _qual(type(v))
+    if id(v) in seen:
+        return (t, "cycle")
+    sn = seen + (id(v),)
+    if isinstance(v, (Atom, Bond)):
+        w = own(v) if own else ("-",)
+        fl = tuple(leaf_key(getattr(v, f)) for f in (ATOM_FIELDS if isinstance(v, Atom) else BOND_FIELDS))
+        return (t, w, fl)       # (the attributes of an atom / bond are observed where it lives)
+    if isinstance(v, np.ndarray):
+        return (t, str(v.dtype), tuple(v.shape), tuple(tkey(x, own, sn) for x in v.ravel().tolist()))
+    if isinstance(v, dict):
+        extra = (repr(v.default_factory),) if isinstance(v, collections.defaultdict) else ()
+        return (t,) + extra + (tuple((tkey(k, own, sn), tkey(x, own, sn)) for k, x in v.items()),)
+    if isinstance(v, (list, tuple)):
+        return (t, tuple(getattr(v, "_fields", ())), tuple(tkey(x, own, sn) for x in v))
+    if isinstance(v, (set, frozenset)):
+        return (t, tuple(sorted((tkey(x, own, sn) for x in v), key=repr)))
+    if isinstance(v, (bytes, bytearray)):
+        return (t, bytes(v).hex())
+    if isinstance(v, enum.Enum):
+        return (t, v.name)
+    if attrs.has(type(v)):
+        return (t, tuple((a.name, tkey(getattr(v, a.name, None), own, sn)) for a in attrs.fields(type(v)) if a.name != "_parent"))
+    return (t,) + tuple(leaf_key(v))
+
+
+def deep_members(v, out, seen):
+    """Every object with identity and mutable state met inside an attribute value (containers, attrs instances, atoms, bonds)."""
+    import numpy as np
+    if id(v) in seen:
+        return
+    seen.add(id(v))
+    if isinstance(v, np.ndarray):
+        out.append(v)
+    elif isinstance(v, dict):
+        out.append(v)
+        for x in v.values():
+            deep_members(x, out, seen)
+    elif isinstance(v, (list, tuple, set, frozenset)):
+        if not isinstance(v, (tuple, frozenset)):
+            out.append(v)
+        for x in v:
+            deep_members(x, out, seen)
+    elif isinstance(v, bytearray):
+        out.append(v)
+    elif attrs.has(type(v)):
+        out.append(v)
+        for a in attrs.fields(type(v)):
+            if a.name != "_parent":
+                deep_members(getattr(v, a.name, None), out, seen)
+
+
+def typed_obs(unit):
+    """The attrib dictionaries of an object, of its atoms and of its bonds by type and content (`tkey`): (with, without) the
+    information which atom / bond of the object a stored Atom / Bond is."""
+    o = unit.read
+    atoms = list(o.atoms)
+    bonds = list(o.bonds) if _has_bonds(o) else []
+    ia = {id(a): i for i, a in enumerate(atoms)}
+    ib = {id(b): j for j, b in enumerate(bonds)}
+    refs = []
+
+    def own(x):
+        refs.append(1)
+        if id(x) in ia:
+            return ("atom", ia[id(x)])
+        if id(x) in ib:
+            return ("bond", ib[id(x)])
+        return ("foreign",)
+    mk = lambda f: {"obj": tkey(o.attrib, f), "atoms": [tkey(a.attrib, f) for a in atoms], "bonds": [tkey(b.attrib, f) for b in bonds]}
+    t1 = mk(own)
+    return t1, (mk(None) if refs else t1)
+
+
+EXOTIC = ["Counter", "defaultdict", "OrderedDict", "namedtuple", "tuple-nested", "set", "frozenset", "bytes", "None", "bytearray",
+          "atom-ref", "bond-ref", "attrs-instance", "list-of-refs", "dict-of-refs", "enum", "numpy-scalar", "atoms-naming-each-other",
+          "complex"]
+
+
+def exotic_value(rng, kind, atoms, bonds):
+    """An attribute value of a kind beyond numbers / strings / arrays / lists / dicts.  Returns None (the Python None is kind
+    "None") when the kind does not apply to the object (no atom / bond to refer to)."""
+    import numpy as np
+    import difflib
+    from molli.chem import Element
+    if kind == "Counter":
+        return collections.Counter("aab" + "c" * rng.randrange(3))
+    if kind == "defaultdict":
+        d = collections.defaultdict(list)
+        d["k"].append(rng.randrange(5))
+        return d
+    if kind == "OrderedDict":
+        d = collections.OrderedDict([("z", 1), ("a", [2.5])])
+        d.move_to_end("z")
+        return d
+    if kind == "namedtuple":
+        return rng.choice([PointNT(1.0, rng.randrange(4)), difflib.Match(1, 2, rng.randrange(1, 5))])
+    if kind == "tuple-nested":
+        return (rng.randrange(9), [2, 3], ("x", 0.5))
+    if kind == "set":
+        return {1, "two", rng.randrange(3, 9)}
+    if kind == "frozenset":
+        return frozenset({1, rng.randrange(3, 9)})
+    if kind == "bytes":
+        return bytes([0, 255, rng.randrange(256)])
+    if kind == "bytearray":
+        return bytearray([1, 2, rng.randrange(256)])
+    if kind == "enum":
+        return rng.choice([Element.Pd, Element.C])
+    if kind == "numpy-scalar":
+        return rng.choice([np.float32(1.5), np.int64(7), np.float64(0.25), np.bool_(True)])
+    if kind == "complex":
+        return complex(1.5, -2.0)
+    if kind == "attrs-instance":
+        return UserTag(rng.choice(["t", "u"]), [rng.randrange(5), [0.5]])
+    if kind == "atom-ref":
+        return rng.choice(atoms) if atoms else None
+    if kind == "bond-ref":
+        return rng.choice(bonds) if bonds else None
+    if kind == "list-of-refs":
+        return [rng.choice(atoms), PointNT(0, 1), collections.Counter("xy")] if atoms else None
+    if kind == "dict-of-refs":
+        return {"who": rng.choice(atoms), "n": collections.Counter("q"), "t": (1, 2)} if atoms else None
+    return None
+
+
+def decorate_exotic(obj, rng, kinds=None):
+    """Stores 2..4 exotic attribute values on the finished object: on the object, on an atom, on a bond.  References name
+    atoms / bonds OF THIS object (a Conformer: of its ensemble).  Returns the kinds used."""
+    o = obj._parent if type(obj).__name__ == "Conformer" else obj
+    atoms = list(o.atoms)
+    bonds = list(o.bonds) if _has_bonds(o) else []
+    used = []
+    for kind in (kinds or rng.sample(EXOTIC, rng.randrange(2, 5))):
+        if kind == "atoms-naming-each-other":
+            if len(atoms) >= 2:
+                a, b = rng.sample(atoms, 2)
+                a.attrib["mapped_to"], b.attrib["mapped_to"] = b, a
+                used.append(kind)
+            continue
+        if kind == "None":
+            v = None
+        else:
+            v = exotic_value(rng, kind, atoms, bonds)
+            if v is None:
+                continue
+        level = rng.choice(["obj"] + (["atom"] * 2 if atoms else []) + (["bond"] if bonds else []))
+        d = o.attrib if level == "obj" else (rng.choice(atoms).attrib if level == "atom" else rng.choice(bonds).attrib)
+        d["x_" + kind.replace("-", "_")] = v
+        used.append(kind)
+    return used
 
 
 # ------------------------------------------------------------------ units: what is read as "one object"
@@ -313,11 +526,14 @@ def raw_obs(unit):
             "attrib": [(leaf_key(k), vkey(v)) for k, v in o.attrib.items()],
             # the DEEP part (mirrors Model/Alias.v `stores`): content of the mutable values held by the attrib dictionaries
             "stores": {"obj": dict_store(o.attrib)[0], "atoms": [dict_store(a.attrib)[0] for a in atoms],
-                       "bonds": [dict_store(b.attrib)[0] for b in bl] if bl is not None else []}}
+                       "bonds": [dict_store(b.attrib)[0] for b in bl] if bl is not None else []},
+            # oracle only: every attribute value by type and content; `typed` also says which atom / bond of THIS object a
+            # stored Atom / Bond is (only a deep copy re-points such references into the copy)
+            **dict(zip(("typed", "typed0"), typed_obs(unit)))}
 
 
 def no_stores(ro):
-    return {k: v for k, v in ro.items() if k != "stores"}
+    return {k: v for k, v in ro.items() if k not in ("stores", "typed", "typed0")}
 
 
 def stores_term(ro, it):
@@ -360,9 +576,15 @@ def obs_term(ro, it):
             f"{oa(ro['weights'])} (Some {dct(ro['attrib'])})))")
 
 
-def strip_obs(ro, need):
+def strip_obs(ro, need, deep=False):
     """The part of an observation a route has to reproduce (parents are judged separately)."""
     d = {"atoms": [(p, a) for p, a, _ in ro["atoms"]]}
+    ty = ro["typed" if deep else "typed0"]
+    d["atom-attrib-value-types"] = ty["atoms"]
+    if need["bonds"]:
+        d["bond-attrib-value-types"] = ty["bonds"]
+    if need["attrib"]:
+        d["attrib-value-types"] = ty["obj"]
     if need["bonds"]:
         d["bonds"] = None if ro["bonds"] is None else [(i, j, p, a) for i, j, p, a, _ in ro["bonds"]]
     for f in ("coords", "charges", "weights"):
@@ -849,14 +1071,15 @@ def apply_single(ml, src, route, kw=None):
     return Unit(src, thr), Unit(res, thr)
 
 
-def apply_multi(ml, rng, kname, route, pre=lambda units, v: None, desig=None, kwout=None, vals=True, ensure=None):
+def apply_multi(ml, rng, kname, route, pre=lambda units, v: None, desig=None, kwout=None, vals=True, ensure=None, prep=lambda x: x):
     """Derived molecules. Returns (list of source units, VSrc, result unit); `pre` is called with the
-    sources and their union object before the route runs."""
+    sources and their union object before the route runs; `prep` maps every generated source to the object that is
+    handed to the route (a copy of it, along a chain of class-preserving copy routes)."""
     import numpy as np
     from molli.chem import Bond
     cls = ctor(ml, route[1]) if route[0] in ("concat", "join") else None
     if route[0] == "concat":
-        srcs = [make_source(ml, rng, kname, vals=vals, ensure=ensure) for _ in range(route[2])]
+        srcs = [prep(make_source(ml, rng, kname, vals=vals, ensure=ensure)) for _ in range(route[2])]
         ch = np.concatenate([s.atomic_charges for s in srcs]) if kname == "Molecule" else None
         v = VSrc(kname, [a for s in srcs for a in s.atoms], [b for s in srcs for b in s.bonds],
                  np.vstack([s.coords for s in srcs]), ch, None, None, None, srcs)
@@ -865,7 +1088,12 @@ def apply_multi(ml, rng, kname, route, pre=lambda units, v: None, desig=None, kw
         res = cls.concatenate(*srcs)
         return units, v, Unit(res)
     if route[0] == "join":
-        (s1, ap1), (s2, ap2) = make_joinable(ml, rng, kname, vals), make_joinable(ml, rng, kname, vals)
+        def prepj(sa):
+            s0, ap0 = sa
+            i0 = next(k for k, a in enumerate(s0.atoms) if a is ap0)
+            sc = prep(s0)
+            return sc, sc.atoms[i0]
+        (s1, ap1), (s2, ap2) = prepj(make_joinable(ml, rng, kname, vals)), prepj(make_joinable(ml, rng, kname, vals))
         a1r = next(s1.connected_atoms(ap1)); a2r = next(s2.connected_atoms(ap2))
         atoms = [a for a in itertools.chain(s1.atoms, s2.atoms) if a is not ap1 and a is not ap2]
         bonds = [b for b in itertools.chain(s1.bonds, s2.bonds) if ap1 not in b and ap2 not in b]
@@ -884,10 +1112,10 @@ def apply_multi(ml, rng, kname, route, pre=lambda units, v: None, desig=None, kw
         return units, v, Unit(res)
     if route[0] in ("ensfromlist", "ensfromlistw"):
         if kname == "Conformer":
-            e = make_source(ml, rng, "ConformerEnsemble", vals=vals, ensure=ensure)
+            e = prep(make_source(ml, rng, "ConformerEnsemble", vals=vals, ensure=ensure))
             srcs = [e[i] for i in range(e.n_conformers)]
         else:
-            m0 = make_source(ml, rng, "Molecule", vals=vals, ensure=ensure)
+            m0 = prep(make_source(ml, rng, "Molecule", vals=vals, ensure=ensure))
             srcs = [m0]
             for c in range(rng.randrange(0, 3)):
                 mc = ml.Molecule(m0)
@@ -1346,12 +1574,19 @@ def value_members(unit):
     if bl is not None:
         ds += [("bond-attrib-value", b.attrib) for b in bl]
         ds += [("atom-attrib-value", e.attrib) for b in bl for e in (b.a1, b.a2)]
-    return [(k, x) for k, d in ds for x in dict_store(d)[1]]
+    out = []
+    for k, d in ds:
+        ms = []
+        deep_members(list(d.values()), ms, set())
+        out += [(k, x) for x in ms[1:]]       # (ms[0] is the scratch list itself)
+    return out
 
 
 def shared_values(u1, u2):
+    """Kinds of attribute values of u1 that ARE objects u2 holds (as values) or consists of (its atoms, bonds, dictionaries)."""
     m2 = value_members(u2)
-    return sorted({k for k, x in value_members(u1) if any(same_obj(x, y) for _, y in m2)})
+    own2 = {id(x) for xs in containers(u2).values() for x in xs}
+    return sorted({k for k, x in value_members(u1) if id(x) in own2 or any(same_obj(x, y) for _, y in m2)})
 
 
 def shared_kinds(u1, u2):
@@ -1384,6 +1619,8 @@ class CaseOut:
         self.key = None
         self.vals = True
         self.vkind = None       # kind of attribute value edited in place (ndarray / list / dict), if any
+        self.exotic = []        # kinds of attribute values beyond numbers / strings / arrays / lists / dicts the sources hold
+        self.chain = None       # the chain of copy routes the source of the case went through, if any
 
 
 DEEP_ROUTES = ("pickle", "deepcopy")      # routes whose contract is a deep copy (Model/Alias.v deep_route)
@@ -1391,17 +1628,103 @@ TRACK_VALS = {}                            # (kname, route) -> False when the ta
                                            # one store per dictionary: it cannot follow a partly shared one)
 
 
-def run_case(ml, rng, kname, route, mut_side, want_mut=None, emit=True, desig=None, vals=None):
+def apply_step(ml, obj, step):
+    """One copy route of a chain applied to an object: ("ctor", dst) / ("pickle",) / ("deepcopy",)."""
+    if step[0] == "ctor":
+        return ctor(ml, step[1])(obj)
+    return pickle.loads(pickle.dumps(obj)) if step[0] == "pickle" else _copy.deepcopy(obj)
+
+
+def chain_classes(k0, prefix):
+    """Classes along a chain: [k0, class after step 1, ...]."""
+    ks = [k0]
+    for st in prefix:
+        ks.append(dst_of(ks[-1], st))
+    return ks
+
+
+def reduce_prefix(k0, prefix):
+    """The chain without its class-preserving steps (pickle, deepcopy, copy-constructor of the object's own class): a copy
+    that is equal to its source in every observable field can stand in for it, so the reduced chain must give the same."""
+    out, k = [], k0
+    for st in prefix:
+        d = dst_of(k, st)
+        if st[0] in DEEP_ROUTES or d == k:
+            continue
+        out.append(st)
+        k = d
+    return tuple(out)
+
+
+def chain_name(k0, prefix):
+    return ">".join([k0] + [route_name(st) for st in prefix])
+
+
+def run_case(ml, rng, kname, route, mut_side, want_mut=None, emit=True, desig=None, vals=None, prefix=(), exotic=False, kinds=None):
+    """One case.  kname is the class of the GENERATED source; with a `prefix` (a chain of copy routes) the route under test is
+    applied to the copy at the end of the chain.  A case that raises although the same case without what is special about
+    it (ordinary attribute values / the chain without its class-preserving copies) runs is a violation: legal attribute
+    values and the history of an object as a copy must not make a copy route fail."""
+    import random
+    prefix = tuple(norm_route(st) for st in prefix)
+    if not prefix and not exotic:
+        return _run_case(ml, rng, kname, route, mut_side, want_mut, emit, desig, vals)
+    st0 = rng.getstate()
+    try:
+        return _run_case(ml, rng, kname, route, mut_side, want_mut, emit, desig, vals, prefix, exotic, kinds)
+    except Exception as e:   # noqa
+        err = e
+    twins = []
+    if exotic:
+        twins.append(("with ordinary attribute values", prefix, False))
+    if reduce_prefix(kname, prefix) != prefix:
+        twins.append((f"on the source itself ({chain_name(kname, reduce_prefix(kname, prefix))})", reduce_prefix(kname, prefix), exotic))
+    for what, pf, ex in twins:
+        r2 = random.Random()
+        r2.setstate(st0)
+        try:
+            _run_case(ml, r2, kname, route, mut_side, want_mut, False, desig, vals, pf, ex, kinds)
+        except Exception:   # noqa
+            continue
+        out = CaseOut()
+        kc = chain_classes(kname, prefix)[-1]
+        out.key = (kc, route_name(norm_route(route)), "raises", mut_side, 0)
+        out.chain, out.exotic = chain_name(kname, prefix) if prefix else None, list(kinds or ["?"]) if exotic else []
+        out.violations.append((f"C06:{kc}:{route_name(norm_route(route))}:raises:{type(err).__name__}"
+                               + (f":after:{chain_name(kname, prefix)}" if prefix else "") + (":exotic-values" if exotic else ""),
+                               f"{route_name(norm_route(route))} of a {kc}" + (f" that is the copy {chain_name(kname, prefix)}" if prefix else "")
+                               + (" holding attribute values of other types" if exotic else "")
+                               + f" raised {type(err).__name__}: {str(err)[:160]} -- the same {what} runs"))
+        return out
+    raise err
+
+
+def _run_case(ml, rng, kname, route, mut_side, want_mut=None, emit=True, desig=None, vals=None, prefix=(), exotic=False, kinds=None):
     """Drives one (source class, route, mutation) triple through the real code.
     Returns CaseOut with the Coq term (if emit) and the oracle's verdicts."""
     out = CaseOut()
     route = norm_route(route)
     deep = route[0] in DEEP_ROUTES
+    k0 = kname
+    kname = chain_classes(k0, prefix)[-1]       # the class the route under test is applied to
     if vals is None:
-        vals = TRACK_VALS.get((kname, route), True)
+        vals = TRACK_VALS.get((kname, route), True) and all(TRACK_VALS.get((k, st), True) for k, st in zip(chain_classes(k0, prefix), prefix))
     out.vals = vals
     ensure = VAL_MUTS.get(want_mut) if vals else None
     tag = f"C06:{kname}:{route_name(route)}"
+    ctag = tag + (f":after:{chain_name(k0, prefix)}" if prefix else "")
+    if prefix and k0 == "Conformer":
+        emit = False                              # chains that start from a conformer: oracle only
+    origs = []                                    # (object, position in the chain) of everything that precedes a source of the case
+
+    def prep(src):
+        if exotic:
+            out.exotic += decorate_exotic(src, rng, kinds)
+        cur = src
+        for i, st in enumerate(prefix):
+            origs.append((cur, i))
+            cur = apply_step(ml, cur, st)
+        return cur
     it = Intern()
     enc = Enc(it)
     multi = route[0] in ("concat", "join", "ensfromlist", "ensfromlistw")
@@ -1412,16 +1735,18 @@ def run_case(ml, rng, kname, route, mut_side, want_mut=None, emit=True, desig=No
 
     def pre(units, v):
         st["before"] = [raw_obs(u) for u in units]
+        st["origs"] = [Unit(x) for x, _ in origs]
+        st["obefore"] = [raw_obs(u) for u in st["origs"]]
         if emit:
-            for u in units:
+            for u in units + st["origs"]:
                 enc.reg_unit(u)
             enc.read_all()
             st["root"] = encode_union(enc, v) if v is not None else enc.loc[("o", id(units[0].read), units[0].kname)]
             st["h0"] = enc.read_all()
     if multi:
-        srcus, v, resu = apply_multi(ml, rng, kname, route, pre, desig, kwout=kw, vals=vals, ensure=ensure)
+        srcus, v, resu = apply_multi(ml, rng, kname, route, pre, desig, kwout=kw, vals=vals, ensure=ensure, prep=prep)
     else:
-        src = make_source(ml, rng, kname, vals=vals, ensure=ensure)
+        src = prep(make_source(ml, rng, k0, vals=vals, ensure=ensure))
         kw = make_overrides(ml, rng, src, route)        # before the snapshot: the call under test is the one with the keywords
         pre([Unit(src, route[0] in ("pickle", "deepcopy") and kname == "Conformer")], None)
         srcu, resu = apply_single(ml, src, route, kw)
@@ -1430,32 +1755,74 @@ def run_case(ml, rng, kname, route, mut_side, want_mut=None, emit=True, desig=No
     before = st["before"]
     need = need_of(kname, route)
     # ---- oracle 1: the copy itself
-    for su, b4 in zip(srcus, before):
+    ounits = st["origs"]
+    opos = [i for _, i in origs]
+    out.chain = chain_name(k0, prefix) if prefix else None
+    for su, b4 in zip(list(srcus) + ounits, before + st["obefore"]):
         if raw_obs(su) != b4:
-            out.violations.append((tag + ":alters-source", f"{route_name(route)} of a {kname} changed a source: "
-                                   f"fields {diff_fields(b4, raw_obs(su))}"))
+            out.violations.append((ctag + ":alters-source", f"{route_name(route)} of a {kname} changed a source"
+                                   + (" (or an earlier object of the chain " + out.chain + ")" if prefix else "")
+                                   + f": fields {diff_fields(b4, raw_obs(su))}"))
     ro_res = raw_obs(resu)
     if multi:
         judge_derived(out, tag, kname, route, srcus, v, resu, ro_res, need)
     else:
-        want, got = strip_obs(raw_obs(srcus[0]), need), strip_obs(ro_res, need)
+        want, got = strip_obs(raw_obs(srcus[0]), need, deep), strip_obs(ro_res, need, deep)
         for f in diff_fields(want, got):
-            out.violations.append((f"{tag}:{f}-differ", f"{route_name(route)} of a {kname}: `{f}` of the copy differs from the source "
+            out.violations.append((f"{ctag}:{f}-differ", f"{route_name(route)} of a {kname}: `{f}` of the copy differs from the source "
                                    f"({summ(got.get(f))} vs {summ(want.get(f))})"))
+    if prefix and not multi:
+        # (a) the whole chain against the object it started from: every field all classes on the way have is the original's
+        steps = list(zip(chain_classes(k0, prefix), prefix)) + [(kname, route)]
+        nds = [need_of(k, r) for k, r in steps]
+        need_c = {f: all(nd[f] for nd in nds) for f in nds[0]}
+        all_deep = all(r[0] in DEEP_ROUTES for _, r in steps)
+        o0 = Unit(origs[0][0], all_deep and k0 == "Conformer")
+        want, got = strip_obs(raw_obs(o0), need_c, all_deep), strip_obs(ro_res, need_c, all_deep)
+        for f in diff_fields(want, got):
+            out.violations.append((f"{ctag}:{f}-differ-from-original", f"{out.chain}>{route_name(route)}: `{f}` of the result differs from the "
+                                   f"object the chain started from ({summ(got.get(f))} vs {summ(want.get(f))})"))
+        # (b) a copy stands in for its source: the chain without its class-preserving copies gives the same result
+        red = reduce_prefix(k0, prefix)
+        if red != prefix:
+            ref = origs[0][0]
+            for stp in red:
+                ref = apply_step(ml, ref, stp)
+            try:
+                _, refu = apply_single(ml, ref, route, kw)
+                ro_ref = raw_obs(refu)
+            except Exception as e:   # noqa
+                ro_ref = None
+                out.violations.append((f"{ctag}:source-raises:{type(e).__name__}", f"{route_name(route)} works on the copy {out.chain} but "
+                                       f"raises {type(e).__name__} on {chain_name(k0, red)}"))
+            if ro_ref is not None:
+                if any(stp[0] == "ctor" for stp in prefix if stp not in red):
+                    # a one-level copy among the dropped steps: a stored Atom / Bond still is the earlier object's (VShared)
+                    ro_ref, ro_res_c = dict(ro_ref, typed=None), dict(ro_res, typed=None)
+                else:
+                    ro_res_c = ro_res
+                for f in diff_fields(ro_ref, ro_res_c):
+                    out.violations.append((f"{ctag}:{f}-differ-from-direct", f"{route_name(route)} of the copy {out.chain} gives another `{f}` than "
+                                           f"{route_name(route)} of {chain_name(k0, red)} ({summ(ro_res.get(f))} vs {summ(ro_ref.get(f))})"))
     if kw:
         judge_overrides(out, tag, route, before[0], ro_res, kw_said, keep_scal=(route[0] == "ctorw"))
     pq = {q for _, _, q in ro_res["atoms"]} | ({q for *_, q in ro_res["bonds"]} if ro_res["bonds"] else set())
     if pq - {"QSelf"}:
-        out.violations.append((f"{tag}:parent-{sorted(pq - {'QSelf'})[0][1:].lower()}",
+        out.violations.append((f"{ctag}:parent-{sorted(pq - {'QSelf'})[0][1:].lower()}",
                                f"{route_name(route)} of a {kname}: atoms/bonds of the result do not point to it as parent ({sorted(pq)})"))
-    for su in srcus:
+    # which earlier objects are separated from the result by a deep copy somewhere on the way
+    deep_of = {id(su): deep for su in srcus}
+    for ou, i in zip(ounits, opos):
+        deep_of[id(ou)] = deep or any(stp[0] in DEEP_ROUTES for stp in prefix[i:])
+    for su in list(srcus) + ounits:
         sk = shared_kinds(resu, su)
         for k in sk:
-            out.violations.append((f"{tag}:shares-{k}", f"{route_name(route)} of a {kname}: the result shares its {k} container(s) with a source"))
-        if deep:
+            out.violations.append((f"{ctag}:shares-{k}", f"{route_name(route)} of a {kname}: the result shares its {k} container(s) with a source"
+                                   + (f" or an earlier object of the chain {out.chain}" if prefix else "")))
+        if deep_of[id(su)]:
             # a deep copy hands out attribute values of its own, nested ones included
             for k in shared_values(resu, su):
-                out.violations.append((f"{tag}:shares-{k}", f"{route_name(route)} of a {kname}: a mutable value stored in an attrib dictionary "
+                out.violations.append((f"{ctag}:shares-{k}", f"{route_name(route)} of a {kname}: a mutable value stored in an attrib dictionary "
                                        f"of the result ({k}) IS the source's object (a deep copy must not share it)"))
     # ---- heap encoding of the copy (tie H)
     if emit:
@@ -1469,13 +1836,14 @@ def run_case(ml, rng, kname, route, mut_side, want_mut=None, emit=True, desig=No
         layout(enc, resu, base, n, m)
         enc.pad(base + 8 + 3 * n + 3 * m)
         h1 = enc.read_all()
-        watch_units = list(srcus) + [resu]
+        watch_units = list(srcus) + ounits + [resu]
         w1 = [(enc.loc[("o", id(u.read), u.kname)], raw_obs(u)) for u in watch_units]
     # ---- mutation
     units = list(srcus) + [resu]
-    mu = resu if mut_side == "copy" else rng.choice(srcus)
-    # the property relates a result and its sources (sources may share among themselves, e.g. conformers of one ensemble)
-    others = list(srcus) if mu is resu else [resu]
+    mu = resu if mut_side == "copy" else rng.choice(list(srcus) + ounits + ounits)
+    # the property relates a result and its sources (sources may share among themselves, e.g. conformers of one ensemble);
+    # with a chain: the result and every earlier object of the chain
+    others = (list(srcus) + ounits) if mu is resu else [resu]
     menu = mutations_for(mu)
     mut = want_mut if (want_mut in menu) else rng.choice(menu)
     snap = [raw_obs(u) for u in others]
@@ -1486,13 +1854,18 @@ def run_case(ml, rng, kname, route, mut_side, want_mut=None, emit=True, desig=No
         vopf, opf = opf[1], None
     for u, s in zip(others, snap):
         now = raw_obs(u)
-        if mut in VAL_MUTS and not deep:
+        pair_deep = deep_of[id(u)] if mu is resu else deep_of[id(mu)]
+        if not pair_deep:
+            # one-level routes only between the two: they hold the same value objects (a stored Atom / Bond is the source's);
+            # what such a value shows is not the copy's own state
+            now, s = dict(now, typed=None, typed0=None), dict(s, typed=None, typed0=None)
+        if mut in VAL_MUTS and not pair_deep:
             # a one-level route hands out the source's value objects: the in-place edit of such a value is not held
             # against it; everything else of the other side must still be as it was
             now, s = no_stores(now), no_stores(s)
         if now != s:
             side = "copy" if mut_side == "copy" else "source"
-            out.violations.append((f"{tag}:leak:{mut}:{side}",
+            out.violations.append((f"{ctag}:leak:{mut}:{side}",
                                    f"after {route_name(route)} of a {kname}, `{mut}` applied to the {side} changed the other object: fields {diff_fields(s, now)}"))
     out.key = (kname, route_name(route), mut, mut_side, len(resu.atoms_list()))
     if emit:
@@ -1610,6 +1983,14 @@ def judge_derived(out, tag, kname, route, srcus, v, resu, ro_res, need):
     got_atoms = [(p, d) for p, d, _ in ro_res["atoms"]]
     if want_atoms != got_atoms:
         out.violations.append((f"{tag}:atoms-differ", f"{rn}: atoms of the result differ from the sources' atoms"))
+    if [tkey(a.attrib) for a in v.atoms] != ro_res["typed0"]["atoms"]:
+        out.violations.append((f"{tag}:atom-attrib-value-types-differ", f"{rn}: the values stored in the atoms' attrib dictionaries differ from "
+                               "the sources' in type or content"))
+    if [tkey(b.attrib) for b in v.bonds] != ro_res["typed0"]["bonds"][:len(v.bonds)]:
+        out.violations.append((f"{tag}:bond-attrib-value-types-differ", f"{rn}: the values stored in the bonds' attrib dictionaries differ from "
+                               "the sources' in type or content"))
+    if need["attrib"] and v.attrib_d is not None and tkey(v.attrib_d) != ro_res["typed0"]["obj"]:
+        out.violations.append((f"{tag}:attrib-value-types-differ", f"{rn}: the values of the attrib dictionary differ from the first source's in type or content"))
     if [dict_store(a.attrib)[0] for a in v.atoms] != ro_res["stores"]["atoms"]:
         out.violations.append((f"{tag}:atom-attrib-values-differ", f"{rn}: the values stored in the atoms' attrib dictionaries differ from the sources'"))
     idx = {id(a): i for i, a in enumerate(v.atoms)}
@@ -1718,6 +2099,77 @@ def plan(ctx):
     return quads
 
 
+LOSSLESS = [("pickle",), ("deepcopy",)]
+
+
+def plan_extra(ctx, tabulated):
+    """Two more dimensions of the input space, as items (k0, prefix, route, side, mutation, designators, exotic, kinds, emit):
+    * attribute values of TYPES beyond numbers / strings / arrays / lists / dicts (EXOTIC) on the object, an atom, a bond:
+      every kind on every deep route of every class, random kinds on every other route;
+    * CHAINS of copy routes: every (class, route 1, route 2) of the single routes (cross-class constructors applied to copies,
+      copies of constructed objects, ...), class-preserving copies in front of the derived-molecule routes, and chains of three."""
+    import random
+    rng = random.Random(ctx.rng.randrange(1 << 30))
+    items = []
+    allm = ALL_MUTS + VAL_MUT_LIST
+    c = 0
+    reps = 1 if not ctx.thorough else 4
+    for _ in range(reps):
+        for kname in SOURCES:
+            for route in single_routes(kname):
+                if (kname, route) not in tabulated:
+                    continue
+                if route[0] in DEEP_ROUTES:
+                    for kind in EXOTIC:
+                        items.append((kname, (), route, ("copy", "source")[c % 2], allm[c % len(allm)], None, True, [kind], c % 3 == 0))
+                        c += 1
+                else:
+                    for side in ("copy", "source"):
+                        items.append((kname, (), route, side, allm[c % len(allm)], None, True, None, c % 3 == 0))
+                        c += 1
+        combos = [(a, b) for a in DESIGNATORS for b in DESIGNATORS]
+        for kname, route in MULTI:
+            for side in ("copy", "source"):
+                items.append((kname, (), route, side, allm[c % len(allm)], combos[c % 25] if route[0] == "join" else None, True, None, c % 3 == 0))
+                c += 1
+            # class-preserving copies of the operands in front of concatenate / join / ensemble-from-list
+            for pf in [(("pickle",),), (("deepcopy",),)] + ([(("ctor", kname),)] if kname != "Conformer" else []):
+                items.append((kname, pf, route, ("copy", "source")[c % 2], allm[c % len(allm)], combos[c % 25] if route[0] == "join" else None,
+                              c % 2 == 0, None, c % 3 == 0))
+                c += 1
+        # chains of two single routes
+        for k0 in SOURCES:
+            for r1 in single_routes(k0):
+                if (k0, r1) not in tabulated:
+                    continue
+                k1 = dst_of(k0, r1)
+                for r2 in single_routes(k1):
+                    if (k1, r2) not in tabulated:
+                        continue
+                    items.append((k0, (r1,), r2, ("copy", "source")[c % 2], allm[c % len(allm)], None, c % 2 == 0, None, c % 3 == 0))
+                    c += 1
+    # chains of three (random; at least one class-preserving copy and one constructor among the first two)
+    n3 = 160 if not ctx.thorough else 1200
+    tries = 0
+    while n3 and tries < 20000:
+        tries += 1
+        k0 = rng.choice(SOURCES)
+        pf, k, ok = [], k0, True
+        for _ in range(2):
+            r = rng.choice(single_routes(k))
+            ok = ok and (k, r) in tabulated
+            pf.append(r)
+            k = dst_of(k, r)
+        r3 = rng.choice(single_routes(k))
+        kinds = {r[0] for r in pf + [r3]}
+        if not ok or (k, r3) not in tabulated or "ctor" not in kinds or not (kinds & set(DEEP_ROUTES)):
+            continue
+        items.append((k0, tuple(pf), r3, ("copy", "source")[c % 2], allm[c % len(allm)], None, c % 2 == 0, None, c % 4 == 0))
+        c += 1
+        n3 -= 1
+    return items
+
+
 def lone_oracle(ml, rng, rep):
     """Atom / Bond copied on their own (evolve, pickle, deepcopy): oracle only."""
     for kind in ("Atom", "Bond"):
@@ -1774,6 +2226,47 @@ def lone_oracle(ml, rng, rep):
                                 f"{side} changed the other object", {"lone": kind, "route": rname})
 
 
+def lone_exotic(ml, rng, rep):
+    """A lone Atom / Bond that holds an attribute value of another type, copied on its own (evolve, pickle, deepcopy)."""
+    for kind in ("Atom", "Bond"):
+        for rname, f in (("evolve", lambda x: x.evolve()), ("pickle", lambda x: pickle.loads(pickle.dumps(x))), ("deepcopy", _copy.deepcopy)):
+            for ek in EXOTIC:
+                m = make_source(ml, rng, "Molecule", n=3, rich=True, vals="rich")
+                x = m.atoms[rng.randrange(3)] if kind == "Atom" else m.bonds[0]
+                if ek == "atoms-naming-each-other":
+                    a, b = (x, next(y for y in m.atoms if y is not x)) if kind == "Atom" else (x.a1, x.a2)
+                    a.attrib["mapped_to"], b.attrib["mapped_to"] = b, a
+                else:
+                    v = exotic_value(rng, ek, list(m.atoms), list(m.bonds))
+                    if v is None and ek != "None":
+                        continue
+                    x.attrib["x_" + ek.replace("-", "_")] = v
+                tag = f"C06:{kind}:{rname}"
+                data = {"lone": kind, "route": rname, "exotic": ek}
+                rep.case(key=(kind, rname, "exotic", ek))
+                rep.count("lone-attribute-value-kind:" + ek)
+                want = tkey(x.attrib)
+                try:
+                    y = f(x)
+                except Exception as e:   # noqa
+                    rep.violate(tag + f":raises:{type(e).__name__}:exotic-values", f"{rname} of a lone {kind} whose attrib holds a value of kind "
+                                f"`{ek}` raised {type(e).__name__}: {str(e)[:160]}", data)
+                    continue
+                if tkey(x.attrib) != want:
+                    rep.violate(tag + ":alters-source", f"{rname} of a lone {kind} changed the attribute values of the source (kind `{ek}`)", data)
+                if tkey(y.attrib) != want:
+                    rep.violate(tag + ":attrib-value-types-differ", f"{rname} of a lone {kind}: an attribute value of kind `{ek}` differs from the "
+                                f"source's in type or content ({summ(tkey(y.attrib))} vs {summ(want)})", data)
+                if rname in DEEP_ROUTES:
+                    mine, theirs = [], []
+                    deep_members(list(y.attrib.values()), mine, set())
+                    deep_members(list(x.attrib.values()), theirs, set())
+                    ids = {id(q) for q in theirs[1:]} | {id(q) for q in m.atoms} | {id(q) for q in m.bonds}
+                    if any(id(q) in ids for q in mine[1:]):
+                        rep.violate(tag + ":shares-attrib-value", f"{rname} of a lone {kind}: an object stored as an attribute value of the copy "
+                                    f"(kind `{ek}`) IS the source's object", data)
+
+
 def _quiet():
     import warnings
     import numpy as np
@@ -1787,11 +2280,16 @@ def run(ctx, rep):
     _quiet()
     rep.rule = ("(source class, copy route incl. the set of keyword overrides, mutation, mutated side) over random sources built through the public API; "
                 "a case is non-trivial when the route succeeds and the mutation applies; distinct by that quadruple "
-                "plus the source's size")
+                "plus the source's size, plus the chain of copy routes the source went through and the kinds of attribute values "
+                "of other types it holds")
     rep.trusted += ["T-emitter harness/c06.py (is / numpy.shares_memory on every container of instrumented sources)",
                     "identity->location encoder and public-accessor observer of harness/c06.py",
                     "CPython 3.12, pickle / copy protocol, attrs.evolve, numpy array copying are executed, not modelled"]
-    rep.assumptions += ["keyword overrides are generated truthy and different from the source's value (molli reads a falsy name / charge / "
+    rep.assumptions += ["chains: up to two copy routes in front of the route under test (every pair of single routes, 160 random triples in the "
+                        "quick tier); a class-preserving step is pickle, deepcopy or the constructor of the object's own class",
+                        "attribute values of other types: compared by exact type and content (tkey); a stored Atom / Bond must be "
+                        "re-pointed into the copy by pickle / deepcopy only; the model sees such values as content-free tokens",
+                        "keyword overrides are generated truthy and different from the source's value (molli reads a falsy name / charge / "
                         "mult as `not given`; an array keyword for an ensemble built from an object without conformers has no row to fill)",
                         "mutable values stored INSIDE an attribute dictionary: routes whose contract is a deep copy (pickle, deepcopy) must "
                         "separate them at every depth; the one-level routes (copy constructors, evolve, concatenate, join, ensemble-from-list) "
@@ -1802,6 +2300,7 @@ def run(ctx, rep):
                         "the alias row of a route does not depend on the particular source (checked on every random case by tie H)",
                         "a Conformer pickled / deep-copied as a conformer is judged through its ensemble; a Conformer's coordinate "
                         "and charge rows are read as its own arrays (their aliasing with the ensemble is C14's subject)"]
+    _t0 = __import__("time").time()
     rows, raising = gen_table(ctx)
     for k, r, x in rows:
         rep.count("route:" + r[0])
@@ -1816,18 +2315,33 @@ def run(ctx, rep):
     cases, meta, found = [], [], False
     known_hit = set()
     lone_oracle(ml, random.Random(ctx.rng.randrange(1 << 30)), rep)
-    for kname, route, side, mut, desig in plan(ctx):
-        if (kname, route) not in tabulated and in_model(route):
+    lone_exotic(ml, random.Random(ctx.rng.randrange(1 << 30)), rep)
+    items = [(k, (), r, sd, m, dg, False, None, True) for k, r, sd, m, dg in plan(ctx)]
+    items += plan_extra(ctx, {(k, norm_route(r)) for k, r in tabulated})
+    for kname, prefix, route, side, mut, desig, exotic, kinds, emit in items:
+        kcase = chain_classes(kname, prefix)[-1]
+        if (kcase, route) not in tabulated and in_model(route):
             continue
         seed = ctx.rng.randrange(1 << 30)
         try:
-            co = run_case(ml, random.Random(seed), kname, route, side, want_mut=mut, desig=desig)
+            co = run_case(ml, random.Random(seed), kname, route, side, want_mut=mut, desig=desig, prefix=prefix, exotic=exotic, kinds=kinds,
+                          emit=emit)
         except Exception as e:   # noqa
             rep.count("case-error:" + type(e).__name__)
-            rep.extra.setdefault("case_errors", []).append(f"{kname} {route_name(route)} seed={seed}: {type(e).__name__}: {e}"[:300])
+            rep.extra.setdefault("case_errors", []).append(f"{chain_name(kname, prefix)} {route_name(route)} seed={seed}: {type(e).__name__}: {e}"[:300])
             continue
-        rep.case(key=co.key, sample={"class": kname, "route": route_name(route), "mutation": co.key[2], "side": side} if len(cases) % 97 == 0 else None)
+        rep.case(key=co.key + ((co.chain,) if co.chain else ()) + ((tuple(sorted(set(co.exotic))),) if co.exotic else ()),
+                 sample={"class": kname, "route": route_name(route), "mutation": co.key[2], "side": side, "chain": co.chain,
+                         "exotic": co.exotic} if (len(cases) % 97 == 0 or (prefix and len(cases) % 41 == 0)) else None)
         rep.count("mutation:" + co.key[2])
+        if prefix:
+            rep.count(f"chain:length={len(prefix) + 1}")
+            rep.count("chain:" + ">".join(("same-class-" if st[0] == "ctor" and dst_of(k, st) == k else ("cross-class-" if st[0] == "ctor" else "")) + st[0]
+                                          for k, st in zip(chain_classes(kname, prefix), list(prefix) + [route])))
+        for kd in co.exotic:
+            rep.count("attribute-value-kind:" + kd + (":deep-route" if route[0] in DEEP_ROUTES else ":one-level-route"))
+        if exotic:
+            rep.count("sources-with-attribute-values-of-other-types")
         if co.vkind:
             rep.count(f"value-edit:{co.vkind}:{'deep' if route[0] in DEEP_ROUTES else 'one-level'}-route")
         if not co.vals:
@@ -1838,34 +2352,37 @@ def run(ctx, rep):
             rep.count("override-route:" + route[0] + (":oracle-only" if not in_model(route) else ""))
         if co.term is not None:
             cases.append(co.term)
-            meta.append((kname, route, side, seed))
+            meta.append((kname, route, side, seed, prefix, exotic, kinds))
         if desig:
             rep.count(f"join-designators:{desig[0]}/{desig[1]}")
         for sig, text in co.violations:
             found = True
             rep.violate(sig, text, {"kname": kname, "route": list(route), "side": side, "seed": seed, "mut": mut, "desig": desig,
-                                    "vals": co.vals})
+                                    "vals": co.vals, "prefix": [list(x) for x in prefix], "exotic": exotic, "kinds": kinds})
     if rep.extra.get("case_errors") and len(rep.extra["case_errors"]) > len(cases) // 10 + 3:
         vlib.broken_obligation(rep, "C06_cases", "too many cases could not be driven: " + "; ".join(rep.extra["case_errors"][:3]), found)
+    rep.extra["oracle_encoding_s"] = round(__import__("time").time() - _t0, 1)
+    rep.extra["cases_to_coq"] = len(cases)
     bad = vlib.run_shards(ctx, rep, "c06", HEADER, "(check_case table)", cases, shard=60, case_type="case")
     if bad is None:
         vlib.broken_obligation(rep, "C06_correspondence", "a correspondence shard did not compile: "
                                + "\n".join(rep.extra.get("shard_errors", []))[-1500:], found)
     elif bad:
-        rep.extra["mismatching_cases"] = [f"{meta[i][0]} {route_name(meta[i][1])} side={meta[i][2]} seed={meta[i][3]}" for i in bad[:20]]
+        rep.extra["mismatching_cases"] = [f"{chain_name(meta[i][0], meta[i][4])} {route_name(meta[i][1])} side={meta[i][2]} seed={meta[i][3]}"
+                                          + (" exotic" if meta[i][5] else "") for i in bad[:20]]
         # search: widen the oracle around the mismatching (class, route) pairs
         for i in bad[:30]:
-            kname, route, side, seed = meta[i]
+            kname, route, side, seed, prefix, exotic, kinds = meta[i]
             for s2 in range(40):
                 for sd in ("copy", "source"):
                     try:
-                        co = run_case(ml, random.Random(seed * 131 + s2), kname, route, sd, emit=False)
+                        co = run_case(ml, random.Random(seed * 131 + s2), kname, route, sd, emit=False, prefix=prefix, exotic=exotic, kinds=kinds)
                     except Exception:   # noqa
                         continue
                     for sig, text in co.violations:
                         found = True
                         rep.violate(sig, text, {"kname": kname, "route": list(route), "side": sd, "seed": seed * 131 + s2, "emit": False,
-                                                "vals": co.vals})
+                                                "vals": co.vals, "prefix": [list(x) for x in prefix], "exotic": exotic, "kinds": kinds})
         vlib.broken_obligation(rep, "C06_correspondence", f"{len(bad)} case(s) where the model and the implementation disagree: "
                                + "; ".join(rep.extra["mismatching_cases"][:5]), found)
     if not ok:
@@ -1880,8 +2397,12 @@ def replay(ctx, data):
     _quiet()
     if "lone" in data:
         rep = vlib.Report(ctx)
+        if "exotic" in data:
+            lone_exotic(ml, random.Random(1), rep)
+            return [v for v in rep.violations if all(v.replay.get(k) == data[k] for k in ("lone", "route", "exotic"))]
         lone_oracle(ml, random.Random(1), rep)
         return [v for v in rep.violations if v.replay.get("lone") == data["lone"] and v.replay.get("route") == data["route"]]
     co = run_case(ml, random.Random(data["seed"]), data["kname"], norm_route(data["route"]), data["side"], want_mut=data.get("mut"), emit=False,
-                  desig=tuple(data["desig"]) if data.get("desig") else None, vals=data.get("vals", True))
+                  desig=tuple(data["desig"]) if data.get("desig") else None, vals=data.get("vals", True),
+                  prefix=tuple(norm_route(x) for x in data.get("prefix", [])), exotic=data.get("exotic", False), kinds=data.get("kinds"))
     return [vlib.Violation(s, t) for s, t in co.violations]
